@@ -341,6 +341,16 @@ class BaseEMSurvey(ObjectBase, ABC):  # pylint: disable=too-many-public-methods
         em_metadata = self.metadata.get("EM Dataset", {})
 
         for key, value in entries.items():
+            if (
+                value is None
+                and key != "Property groups"
+                and key in self.default_metadata["EM Dataset"]
+            ):
+                raise KeyError(
+                    f"'{key}' is a mandatory metadata entry, it cannot be removed."
+                )
+
+        for key, value in entries.items():
             if key == "Property groups":
                 self._edit_validate_property_groups(value)
             elif value is None:
